@@ -2,11 +2,11 @@ package mon
 
 import (
 	"context"
-	"encoding/json"
 	"crypto/hmac"
 	"crypto/sha256"
 	"crypto/sha512"
 	"encoding/base64"
+	"encoding/json"
 	"fmt"
 	"hash"
 	"math/rand"
@@ -104,7 +104,7 @@ func C06(c *run.Ctx) {
 	// ---------------- (i) strategy level ----------------
 	sA, sB, sC := secretN("alpha", 40), secretN("bravo", 40), secretN("charlie", 64)
 	s31 := append(append([]byte{}, sA[:31]...), []byte("X-different-tail")...) // equal to sA in the first 31 bytes only
-	s32 := append(append([]byte{}, sA[:32]...), []byte("-other-tail")...)        // equal to sA in the first 32 bytes
+	s32 := append(append([]byte{}, sA[:32]...), []byte("-other-tail")...)      // equal to sA in the first 32 bytes
 	var cfgs []hcfg
 	for _, hs := range []string{"", "sha256", "sha512"} {
 		for _, en := range []int{0, 16, 32, 64} {
@@ -302,7 +302,7 @@ func c06EndToEnd(c *run.Ctx, r *rand.Rand) {
 			}
 			_, dbody := splitPrefix(donor)
 			dparts := strings.Split(dbody, ".")
-			out = append(out, pre+dparts[0]+"."+parts[1])                              // foreign random part + stored signature
+			out = append(out, pre+dparts[0]+"."+parts[1])                             // foreign random part + stored signature
 			out = append(out, pre+b64u.EncodeToString(make([]byte, 32))+"."+parts[1]) // zero random part
 			out = append(out, pre+"AAAA."+parts[1], pre+"."+parts[1])
 			out = append(out, "ory_xx_"+dparts[0]+"."+parts[1])
@@ -452,6 +452,23 @@ func c06JWT(c *run.Ctx, r *rand.Rand) {
 				c.Violate(run.Violation{Kind: "forged-accepted", Key: "forged-accepted jwt-introspection " + f.name, Detail: "introspection reported active: " + f.tok})
 			}
 		}
+		// several JWT access tokens minted for one grant at the same instant (code exchange + refreshes) never repeat
+		az := w.Authorize(url.Values{"client_id": {"conf-a"}, "response_type": {"code"}, "scope": {"offline fosite"}, "state": {"state-0123456789"}, "redirect_uri": {"https://app-a.example/cb"}}, world.Consent{})
+		tk := w.Token(url.Values{"grant_type": {"authorization_code"}, "code": {az.Params.Get("code")}, "redirect_uri": {"https://app-a.example/cb"}}, a)
+		seenJ := map[string]string{tk.S("access_token"): "code exchange"}
+		rtok := tk.S("refresh_token")
+		for gen := 1; gen <= 4 && rtok != ""; gen++ {
+			rf := w.Token(url.Values{"grant_type": {"refresh_token"}, "refresh_token": {rtok}}, a)
+			if rf.Err != nil {
+				break
+			}
+			if prev, dup := seenJ[rf.S("access_token")]; dup {
+				c.Violate(run.Violation{Kind: "duplicate-minted", Key: "duplicate-minted jwt_access_token", Detail: fmt.Sprintf("refresh generation %d returned the same JWT access token as %s", gen, prev)})
+			}
+			seenJ[rf.S("access_token")] = fmt.Sprintf("refresh generation %d", gen)
+			rtok = rf.S("refresh_token")
+		}
+		c.Count("c06_jwt_tokens_of_one_grant", int64(len(seenJ)))
 		if !w.IntrospectAPI(jat, fosite.AccessToken).Active {
 			c.Violate(run.Violation{Kind: "minted-rejected", Key: "minted-rejected jwt", Detail: "authentic JWT access token inactive"})
 		} else {
